@@ -13,7 +13,7 @@ TOL = 1e-9
 META = {
     "rule": "12 Jacobian methods x 4 pose types x every (self, other) pair / (self, point) pair / self of the pose alphabets; documented shape, "
     "J . jacobian_boxplus(operand)[:, d] vs 5-point derivative of op(operand [+] s e_d) for every tangent direction d, ambient entries for SE(2)/R^n, "
-    "compact variants = first COMPACT rows; non-trivial = Jacobian has an entry outside {0,+-1}",
+    "compact variants = first COMPACT rows; axis-aligned operands (one / all but one translation coordinate exactly 0); returned matrices stay unchanged while the methods are evaluated for other poses; non-trivial = Jacobian has an entry outside {0,+-1}",
     "assumptions": [
         "alphabet members only",
         "radial (off-sphere) derivative of the 7-column SE(3) Jacobians is not judged (documentation leaves the extension open)",
@@ -56,7 +56,25 @@ def _alpha(kind, tier, seed):
         ps = ps + [[0.0, 0.0, 0.0] + tiny, [3e-7, -2e-7, 1e-7] + tiny, [0.7, -1.3, 2.1] + tiny, [0.0, 0.0, 0.0] + [-x for x in tiny]]
     else:
         ps = ps + [[3e-7, -2e-7, 1e-7][: len(ps[0])]]
+    # axis-aligned members: exactly one / all but one translation coordinate is 0.0 (a forward or sideways step)
+    if kind == "SE2":
+        ps = ps + [[1.0, 0.0, 0.1], [0.0, -2.0, 0.3], [1.5, 0.0, 0.0]]
+    elif kind == "SE3":
+        q = A.unit([0.2, -0.4, 0.1, 0.8])
+        ps = ps + [[1.0, 0.0, 0.0] + q, [0.0, -2.0, 0.5] + q, [0.0, 0.0, 3.0, 0.0, 0.0, 0.0, 1.0]]
+    else:
+        ps = ps + [[1.0, 0.0, 0.0][: len(ps[0])], [0.0, -2.0, 0.5][: len(ps[0])]]
     return ps
+
+
+def _held(ck, kind, held):
+    """results handed out earlier stay what they were while the same methods are evaluated for OTHER poses."""
+    copies = [(n, r, np.array(r, dtype=float, copy=True)) for n, r in held]
+    _prelude(kind)
+    for n, r, c in copies:
+        ck.nops += 1
+        if np.asarray(r).shape != c.shape or not np.array_equal(np.asarray(r, dtype=float), c):
+            ck.msgs.append("%s: a matrix returned earlier changed when the Jacobian methods were evaluated for other poses (shared result buffer)" % n)
 
 
 def run_chunk(chunk, tier, seed):
@@ -69,7 +87,7 @@ def run_chunk(chunk, tier, seed):
     elif typ == "point":
         n = 2 if kind in ("R2", "SE2") else 3
         for a in ps:
-            for p in A.T(n, tier, seed) + [[3.0, -4.0, 5.0][:n]]:
+            for p in A.T(n, tier, seed) + [[3.0, -4.0, 5.0][:n], [1.0, 0.0, 0.0][:n], [0.0, -2.0, 0.5][:n]]:
                 _do(acc, {"t": "point", "kind": kind, "a": a, "p": p})
     else:
         # forward and then backward through the alphabet: results must not depend on which pose was asked before
@@ -285,6 +303,7 @@ def _eval_inner(case):
             ck.nops += 1
             if J2.shape != keep.shape or not np.array_equal(J2, keep):
                 ck.msgs.append("%s: editing a returned matrix in place changes what later calls return (shared result object)" % name)
+        _held(ck, kind, [(name, getattr(a, name)(b)) for name, _, _, _ in BINARY])
         return ck.msgs, ck.ratio, ck.nontriv, ck.nops
     if t == "point":
         pk = I.POINT_OF[kind]
@@ -330,6 +349,7 @@ def _eval_inner(case):
             for k in range(pd):
                 fd = _fd_ambient(lambda x: (a + x).to_array(), pk, list(case["p"]), k, pk)
                 ck.vec("jacobian_self_oplus_point_wrt_point, column %d" % k, J2[:, k], fd)
+        _held(ck, kind, [(name, getattr(a, name)(p)) for name in ("jacobian_self_oplus_point_wrt_self", "jacobian_self_oplus_point_wrt_point")])
         return ck.msgs, ck.ratio, ck.nontriv, ck.nops
     # unary
     ck = _Ck(sc)
@@ -357,4 +377,5 @@ def _eval_inner(case):
             for k in range(amb):
                 fd = _fd_ambient(lambda x: x.inverse.to_array(), kind, a_st, k, kind)
                 ck.vec("jacobian_inverse, ambient column %d" % k, Ji[:, k], fd)
+    _held(ck, kind, [(name, getattr(a, name)()) for name in ("jacobian_boxplus", "jacobian_inverse")])
     return ck.msgs, ck.ratio, ck.nontriv, ck.nops
